@@ -16,6 +16,7 @@ import RosuModel.Model.StackingWire
 import RosuModel.Model.LifeWire
 import RosuModel.Model.FiniteWire
 import RosuModel.Model.PerfCalcWire
+import RosuModel.Model.SliderEventsWire
 
 open Rosu
 
@@ -69,6 +70,10 @@ def handle (line : String) : String :=
   | "GSQ" :: mode :: args => GenState.handleGSQ mode args
   | "C09" :: args => Finite.handleFinite args
   | "PP" :: args => PerfCalc.handlePP args
+  | ["SLEV", st, sd, v, td, tot, sp] => SliderEvents.handleSLEV st sd v td tot sp
+  | ["OSLD", v, sm, tr, sl] => SliderEvents.handleOSLD v sm tr sl
+  | ["JUICE", v, sm, tr, objs] => SliderEvents.handleJUICE v sm tr objs
+  | ["ONER", mode, v, sm, tr, objs, take] => SliderEvents.handleONER mode v sm tr objs take
   | _ => "bad-op"
 
 partial def loop (h : IO.FS.Stream) (out : IO.FS.Stream) : IO Unit := do
